@@ -43,22 +43,36 @@ theorem zipIdx_map_range {β γ : Type} (l : List β) (F : β → Nat → γ) :
 
 /-! list-level facts about the loop bodies -/
 
+theorem filterMap_congr_mem {β γ : Type} (l : List β) (f g : β → Option γ) (h : ∀ x ∈ l, f x = g x) :
+    l.filterMap f = l.filterMap g := by
+  induction l with
+  | nil => rfl
+  | cons x xs ih =>
+    have hx := h x (by simp)
+    have := ih (fun y hy => h y (by simp [hy]))
+    simp [List.filterMap_cons, hx, this]
+
+
 theorem count_fold (l : List (Slot α)) (c : Nat) :
-    l.foldl (fun c s => if !(!s.1) then c + 1 else c) c = c + arrowCount (logical l) := by
+    l.foldl (fun c s => if s.1 then c + 1 else c) c = c + arrowCount (logical l) := by
   induction l generalizing c with
   | nil => simp [arrowCount, logical]
   | cons s rest ih =>
     rcases s with ⟨v, x⟩
-    cases v <;> simp [List.foldl_cons, ih, arrowCount, logical, opt] <;> omega
+    have h1 := ih c
+    have h2 := ih (c + 1)
+    cases v <;> simp_all [List.foldl_cons, arrowCount, logical, opt] <;> omega
 
 theorem sum_fold (add : α → α → α) (l : List (Slot α)) (z : α) (b : Bool) :
-    l.foldl (fun (acc : α × Bool) s => if !(!s.1) then (add acc.1 s.2, true) else acc) (z, b)
+    l.foldl (fun (acc : α × Bool) s => if s.1 then (add acc.1 s.2, true) else acc) (z, b)
       = (((logical l).filterMap id).foldl add z, b || !((logical l).filterMap id).isEmpty) := by
   induction l generalizing z b with
   | nil => simp [logical]
   | cons s rest ih =>
     rcases s with ⟨v, x⟩
-    cases v <;> simp [List.foldl_cons, ih, logical, opt]
+    have h1 := ih z b
+    have h2 := ih (add z x) true
+    cases v <;> simp_all [List.foldl_cons, logical, opt]
 
 theorem filter_zip (mask : List Bool) (L : List (Option α)) :
     (mask.zip L).filterMap (fun p => if p.1 then some p.2 else none) = arrowFilter L mask := by
@@ -70,5 +84,28 @@ theorem filter_zip (mask : List Bool) (L : List (Option α)) :
     | cons o os =>
       have := ih os
       cases p <;> simp_all [arrowFilter]
+
+
+/-! encode / decode -/
+
+theorem range_map_getD (l : List (Slot α)) (d : Slot α) : (List.range l.length).map (fun k => l.getD k d) = l := by
+  apply List.ext_getElem
+  · simp
+  · intro i h1 h2
+    have : i < l.length := by simpa using h1
+    simp [List.getD_eq_getElem?_getD, this]
+
+theorem logical_replicate (n : Nat) (x : α) : logical (List.replicate n (true, x)) = List.replicate n (some x) := by
+  simp [logical, opt]
+
+theorem logical_const (l : List (Slot α)) (x0 : α) (h : ∀ x ∈ l, x.1 = true ∧ x.2 = x0) :
+    logical l = List.replicate l.length (some x0) := by
+  induction l with
+  | nil => rfl
+  | cons y ys ih =>
+    have hy := h y (by simp)
+    have := ih (fun z hz => h z (by simp [hz]))
+    rcases y with ⟨v, x⟩
+    simp_all [logical, opt, List.replicate_succ]
 
 end IQE.Engine.VecCodec
